@@ -127,6 +127,10 @@ def match_known(known, prop, viol, ev):
             continue
         if "rule" in sig and not any(sig["rule"] in r for r in viol["rules"]):
             continue
+        if "rules" in sig:   # every rule that fired (context tags aside) must be one the finding is known to cause
+            core = [r for r in viol["rules"] if not re.search(r":after-|rejected-in-a-scenario", r)]
+            if not core or not all(any(a in r for a in sig["rules"]) for r in core):
+                continue
         if "wedge" in sig and (not isinstance(ev, dict) or ev.get("wedge") != sig["wedge"]):
             continue
         if "driver_prefix" in sig and not viol.get("driver", "").startswith(sig["driver_prefix"]):
@@ -1139,7 +1143,7 @@ def plan(prop, tier, seed, known):
             fl = list(range(1541, 1600)) + list(range(2050, 2080)) + list(range(2570, 2582)) + [2003, 3089, 3090, 5000, 20001, NB - 1, NB, NB + 1, NB + 7, 2 * NB + 3, 3 * NB + 1001]
             fills = [",".join(str(f) for f in fl if lo + i * step <= f <= lo + (i + 1) * step - 1) for i in range(n)]
         for i, ch in enumerate(chunks):
-            jobs.append({"name": "layout%d" % i, "module": "NfsTrace.tla", "cfg": "NfsTrace.cfg", "driver_timeout": 3000, "tlc_timeout": 3000,
+            jobs.append({"name": "layout%d" % i, "module": "NfsTrace.tla", "cfg": "NfsTrace.cfg", "driver_timeout": 3000, "tlc_timeout": 3000, "also": ["C15"],
                          "driver": ["layout", "-sizes", ch, "-fill", fills[i]]})
         jobs.append({"name": "Layout_MC", "kind": "mc", "module": "Layout.tla", "cfg": "Layout_MC.cfg"})
         jobs.append({"name": "Layout_apalache", "kind": "apalache", "module": "Layout.tla",
